@@ -16,8 +16,9 @@ for n in sorted(d for d in os.listdir(f"{V}/seeded") if os.path.exists(f"{V}/see
     sigs = ", ".join(f"`{s.split('/', 1)[1]}`" for s in r["signatures"][:3]) + (" ..." if len(r["signatures"]) > 3 else "")
     extra = f"; caught by {CROSS[n]}" if n in CROSS and r["verdict"] != "CAUGHT" else ""
     rows.append(f"| {n} | {r['property']} | {r['verdict']} ({r['tier']}){extra} | {sigs} |")
-n_c = sum(1 for r in res.values() if r["verdict"] == "CAUGHT")
-table = "\n".join(rows) + f"\n\n{n_c} of {len(res)} swept changes are caught by the quick tier of the owning check.\n"
+names = [d for d in os.listdir(f"{V}/seeded") if os.path.exists(f"{V}/seeded/{d}/patch.diff") and d in res]
+n_c = sum(1 for d in names if res[d]["verdict"] == "CAUGHT")
+table = "\n".join(rows) + f"\n\n{n_c} of {len(names)} swept changes are caught by the quick tier of the owning check.\n"
 p = f"{V}/DESIGN.md"
 s = open(p).read()
 if "SEEDED-TABLE" in s:
@@ -25,4 +26,4 @@ if "SEEDED-TABLE" in s:
 else:
     s = re.sub(r"<!-- seeded-table -->.*?<!-- /seeded-table -->", "<!-- seeded-table -->\n" + table + "<!-- /seeded-table -->", s, flags=re.S)
 open(p, "w").write(s)
-print(f"{n_c}/{len(res)} caught")
+print(f"{n_c}/{len(names)} caught")
